@@ -371,12 +371,18 @@ def random_node(typ, rnd, depth=0, max_items=6):
             key = rnd.choice(sk)
             if key in present:
                 continue
-            alts = alternatives(typ, key)
+            alts = [a for a in alternatives(typ, key) if (typ, key, a.text.upper()) not in LISTED_UNPARSABLE]
             if not alts:
                 continue
             n.add(key, "simple", rnd.choice(alts))
             present.add(key)
     return n
+
+
+# vocabulary cells that are listed known findings (known_findings.json: the text does not parse).  They are exercised, and
+# reported as KNOWN-FINDING, by the single-cell documents; RANDOM documents leave them out so that a listed finding is not
+# reported again under a seed-dependent key.  Nothing else is excluded.
+LISTED_UNPARSABLE = {("querymap", "style", "NORMAL"), ("outputformat", "imagemode", "FEATURE")}
 
 
 def all_slots():
